@@ -7,6 +7,7 @@ package par2
 import (
 	"crypto/md5"
 	"hash/crc32"
+	"strings"
 
 	rt "github.com/akalin/gopar/internal/zzverifrt"
 )
@@ -16,6 +17,7 @@ func init() {
 	rt.Register("C05_create_two", VerifHarness_C05_create_two)
 	rt.Register("C05_create_three", VerifHarness_C05_create_three)
 	rt.Register("C05_create_names", VerifHarness_C05_create_names)
+	rt.Register("C05_index_names", VerifHarness_C05_index_names)
 	rt.Register("C05_sixteenk", VerifHarness_C05_sixteenk)
 	rt.Register("C05_volume_layout", VerifHarness_C05_volume_layout)
 }
@@ -323,6 +325,29 @@ func VerifHarness_C05_create_names() {
 	err := create(s.fs, scnIndex, s.paths, CreateOptions{SliceByteCount: scnSlice, NumParityShards: 1, NumGoroutines: 1})
 	rt.Assert(err == nil, "Create succeeds on the scenario")
 	checkCreated(s, names)
+}
+
+// The names of the files Create writes: the index exactly where requested, the
+// volumes as <base>.volNN+MM.par2 beside it, for base names that end in the
+// letters of the extension, in a dot, or contain dots; Verify then finds every block.
+func VerifHarness_C05_index_names() {
+	base := []string{"s", "data", "x2", "a.", "par", "set.v1", "arp2.par2"}[rt.Choice("base", 7)]
+	index := scnDir + "/" + base + ".par2"
+	useFileIDLessSpec()
+	fs := newSymFS()
+	data := rt.Bytes("f0", 3)
+	fs.put(fileName(0), append([]byte(nil), data...))
+	bystander := scnDir + "/" + base[:len(base)-1] + ".par2" // what a sloppy trim of the name would hit
+	fs.put(bystander, []byte("keep"))
+	err := create(fs, index, []string{fileName(0)}, CreateOptions{SliceByteCount: scnSlice, NumParityShards: 3, NumGoroutines: 1})
+	rt.Assert(err == nil, "Create succeeds on the scenario")
+	rt.Assert(len(fs.writes) >= 2 && fs.writes[0].path == index, "the index file is written at the requested path")
+	for _, w := range fs.writes[1:] {
+		rt.Assert(strings.HasPrefix(w.path, scnDir+"/"+base+".vol") && strings.HasSuffix(w.path, ".par2"), "volume files are named <base>.volNN+MM.par2 beside the index")
+	}
+	rt.Assert(bytesEqual(fs.files[fileName(0)], data) && bytesEqual(fs.files[bystander], []byte("keep")), "Create modifies neither its input nor a neighbouring file")
+	res, verr := verify(fs, index, VerifyOptions{NumGoroutines: 1})
+	rt.Assert(verr == nil && res.ShardCounts.UsableParityShardCount == 3 && !res.ShardCounts.RepairNeeded(), "Verify of the fresh set finds every block and nothing to repair")
 }
 
 // The first-16-KiB hash at the boundary: exactly the prefix of length
